@@ -43,8 +43,11 @@ ASSUMPTIONS = [
 ]
 WALL_BUDGET = {"quick": 900.0, "thorough": 3300.0}
 
-OPS = ["START", "GO", "SPAWN", "DSEND", "FIN", "FAIL", "STOP", "RESTORE", "ADV", "RUDE", "KFIN", "QGO", "QRE"]
-SENDS = ("GO", "SPAWN", "DSEND", "FIN", "FAIL", "RUDE", "KFIN", "QGO", "QRE")
+OPS = ["START", "GO", "SPAWN", "DSEND", "FIN", "FAIL", "STOP", "RESTORE", "ADV", "RUDE", "KFIN", "QGO", "QRE", "HALF"]
+SENDS = ("GO", "SPAWN", "DSEND", "FIN", "FAIL", "RUDE", "KFIN", "QGO", "QRE", "HALF")
+# HALF: a transition into the parallel state Z whose first region arms an `after` timer and whose second region invokes an
+# unregistered service: the transition aborts half-way and is rolled back (the sync engine raises from send()). Whatever the
+# half-entered states armed is something "that interpreter created": stop() must release it like everything else.
 # QGO / QRE: send GO / REA (re-entering self-transition of A, restarts its service under the SAME owner) WITHOUT waiting for
 # the queue to drain, so that the next operation (stop(), restore, ...) meets an event that is still queued (async engine)
 WIRE = {"QGO": "GO", "QRE": "REA"}
@@ -143,7 +146,7 @@ def _machines(eng: int) -> Any:
                         "GO": "B", "SPAWN": {"actions": [spawn]},
                         "DSEND": {"actions": [A.raise_({"type": "LATE"}, delay=40)]},
                         "LATE": {"actions": ["late"]},
-                        "FIN": "F", "FAIL": "X", "RUDE": "Y", "REA": {"target": "A", "reenter": True},
+                        "FIN": "F", "FAIL": "X", "RUDE": "Y", "REA": {"target": "A", "reenter": True}, "HALF": "Z",
                         "KFIN": {"actions": [A.send_to("sysK", "KFIN")]},
                     },
                 },
@@ -151,6 +154,10 @@ def _machines(eng: int) -> Any:
                 "F": {"type": "final"},
                 "X": {"entry": ["X.en"], "invoke": {"src": "boom", "id": "s2"}},
                 "Y": {"invoke": {"src": "rude", "id": "s3"}, "on": {"GO": "B"}},
+                "Z": {"type": "parallel", "states": {
+                    "r1": {"initial": "x", "states": {"x": {"after": {"70": "x2"}}, "x2": {}}},
+                    "r2": {"initial": "y", "states": {"y": {"invoke": {"src": "nosuch", "id": "s4"}}}},
+                }},
             },
         }
         m = create_machine(cfg, logic=make_logic(actions=acts, services={"svc": _svc_sync if eng == 0 else _svc_async, "boom": _boom, "kid": kid,
@@ -252,7 +259,11 @@ def _run_sync(ops: List[str]) -> Optional[str]:
             if before in ("running", "done", "error") and (_snapshot_state(it) != pre or len(CTL["log"]) != nlog):
                 return f"start() in status {before} is not idempotent: {pre} -> {_snapshot_state(it)}"
         elif op in SENDS:
-            it.send(WIRE.get(op, op))
+            try:
+                it.send(WIRE.get(op, op))
+            except XStateMachineError:
+                if op != "HALF":
+                    raise
             if before != "running":
                 if _snapshot_state(it) != pre or len(CTL["log"]) != nlog or len(it._event_queue) != 0:
                     return f"send({op}) in status {before} had an effect: {pre} -> {_snapshot_state(it)}, queue {len(it._event_queue)}"
